@@ -174,3 +174,55 @@ contract(RX + 'ChemkinReaction.get_A', P, label='TS[n_surf=2,sum]',
                    'result * spec.rxn.eff_site_density(self, "sum") == '
                    '%s * self.get_delta_q(act=True, T=T, ignore_q_elec=True, include_ZPE=False, P=P)' % KBH),
                   ('positive', 'result > 0')], cross_check=False)
+
+# ---- OpenMKM surface reactions: the unit system may be given as a string or as a Units object -----------------------------
+II_ = 'pmutt.omkm.phase:InteractingInterface'
+TERR_ = Shared('c09:terrace', New(II_, name=Const('terrace'), site_density=Real(1e-10, 1e-8), phases=Const([])))
+
+
+def osp(name, gas=False):
+    return Shared('c09:' + name, Stub(name, GETTERS, phase=(Const('gas') if gas else TERR_), elements={'H': 1}))
+
+
+def omkm_rxn(n_surf_stoich):
+    rs, st = [osp('G0', True)], [Const(1.)]
+    for i, nu in enumerate(n_surf_stoich):
+        rs.append(osp('S%d' % i))
+        st.append(Const(float(nu)))
+    return New(OM + 'SurfaceReaction', reactants=ListOf(rs), reactants_stoich=ListOf(st), products=ListOf([osp('P0')]),
+               products_stoich=ListOf([Const(1.)]))
+
+
+UNIT_OBJ = lambda: New('pmutt.omkm.units:Units', length=Const('m'), quantity=Const('molec'))
+for stoichs in ((1,), (2,), (1, 2)):
+    n_surf = sum(stoichs)
+    for ulabel, uspec in (('str:molec/m2', lambda: Const('molec/m2')), ('Units(molec,m)', UNIT_OBJ), ('str:mol/cm2', lambda: Const('mol/cm2'))):
+        conv = ("const.convert_unit(initial='mol', final='molec') / const.convert_unit(initial='cm2', final='m2')"
+                if 'cm2' not in ulabel else '1')
+        contract(OM + 'SurfaceReaction.get_A', P, label='no-TS[n_surf=%s,%s]' % ('+'.join(map(str, stoichs)), ulabel),
+                 args=dict(self=omkm_rxn(stoichs), T=T, units=uspec(), sden_operation=Const('min'), include_entropy=Const(False)),
+                 ghost=dict(terrace=TERR_), requires=['T > 0', 'terrace.site_density > 0'],
+                 ensures=[('kB/h-over-(site-density-in-the-requested-units)^(n_surf-1)',
+                           'result * (terrace.site_density * %s) ** %d == %s' % (conv, n_surf - 1, KBH)),
+                          ('positive', 'result > 0')], cross_check=False)
+
+# ---- one BEP relation serving several reactions: every reaction gets the barrier of ITS OWN descriptor -----------------------
+def two_bep_rxns(d):
+    b = Shared('c09:bep:' + d, bep(d))
+    mk_ = lambda tag: New(RX + 'Reaction', reactants=ListOf([sp('R0' + tag), sp('R1' + tag)]), reactants_stoich=ListOf([NU(), NU()]),
+                          products=ListOf([sp('P0' + tag)]), products_stoich=ListOf([NU()]),
+                          transition_state=ListOf([b]), transition_state_stoich=ListOf([Const(1.)]))
+    return b, mk_('a'), mk_('b')
+
+
+for d in ('delta_H', 'reactants_E'):
+    b, r1, r2 = two_bep_rxns(d)
+    val2 = {'delta_H': "r2.get_delta_H(units='kcal/mol', T=T, P=P)",
+            'reactants_E': "r2.get_E_state(state='reactants', units='kcal/mol', T=T, P=P)"}[d]
+    lemma('BEP:shared-by-two-reactions[%s]' % d, P, forall=dict(bep=b, r1=r1, r2=r2, T=T, P=PR), given=BREQ,
+          prove=[('second-reaction-gets-its-own-barrier',
+                  "(bep.get_E_act(units='kcal/mol', reaction=r1, T=T, P=P), bep.get_E_act(units='kcal/mol', reaction=r2, T=T, P=P))[1]"
+                  " == bep._get_adjusted_slope(rev=False) * %s + bep.intercept" % val2),
+                 ('TS-enthalpy-of-the-second-reaction',
+                  "(r1.get_delta_HoRT(act=True, T=T, P=P), r2.get_delta_HoRT(act=True, T=T, P=P))[1] == "
+                  "bep.get_EoRT_act(reaction=r2, rev=False, T=T, P=P)")])
